@@ -11,10 +11,32 @@ import (
 	"github.com/unixpickle/model3d/model2d"
 	"github.com/unixpickle/model3d/model3d"
 	"github.com/unixpickle/model3d/toolbox3d"
+	"verif/vlib"
 )
 
 func screwSubject(rng *rand.Rand) *subject {
 	p1, p2, r, kind := segmentParams3(rng)
+	rod := rng.Intn(6) == 0
+	if rod {
+		// a threaded rod that is 1e6..1e10 radii long, along or close to a coordinate axis
+		ax := C3{}
+		switch rng.Intn(3) {
+		case 0:
+			ax.X = 1
+		case 1:
+			ax.Y = 1
+		default:
+			ax.Z = 1
+		}
+		if rng.Intn(3) == 0 {
+			ax = ax.Add(C3{X: 1e-3 * rng.NormFloat64(), Y: 1e-3 * rng.NormFloat64(), Z: 1e-3 * rng.NormFloat64()})
+		}
+		if rng.Intn(2) == 0 {
+			ax = ax.Scale(-1)
+		}
+		p2 = p1.Add(ax.Scale(r * math.Pow(10, 6+4*rng.Float64())))
+		kind = "rod 1e6..1e10 radii long"
+	}
 	groove := r * []float64{0.01, 0.1, 0.3, 0.5, 1}[rng.Intn(5)] // documented: may not exceed Radius
 	s := &toolbox3d.ScrewSolid{P1: p1, P2: p2, Radius: r, GrooveSize: groove, Pointed: rng.Intn(2) == 0}
 	sub := subject3("toolbox3d.ScrewSolid", s, fmt.Sprintf("ScrewSolid{%s %s R:%x G:%x pointed:%v %s}", f3(p1), f3(p2), r, groove, s.Pointed, kind))
@@ -22,6 +44,38 @@ func screwSubject(rng *rand.Rand) *subject {
 	for i := 0; i < 6; i++ {
 		w := perp3(p2.Sub(p1), rng)
 		hints = append(hints, lerp3(p1, p2, 0.001+0.2*rng.Float64()).Add(w.Scale(r*0.999)))
+	}
+	if rod {
+		// just outside the bounding cylinder, anywhere along the rod. The engine's general margin
+		// is a fraction of the box diagonal (here a million radii and more), so these points are
+		// judged per axis: outside the box by more than 1e-4 of the box's extent on that axis
+		// (plus 1e-12 of the coordinate scale for the cancellation along the rod).
+		var probes []P
+		for i := 0; i < 24; i++ {
+			w := perp3(p2.Sub(p1), rng)
+			probes = append(probes, p3(lerp3(p1, p2, rng.Float64()).Add(w.Scale(r*(1.001+2*rng.Float64())))))
+		}
+		sub.extra = func(c *vlib.Case, q *querier) {
+			for _, p := range probes {
+				out := false
+				for k := 0; k < 3; k++ {
+					m := 1e-4*q.f.ext[k] + 1e-12*q.f.scale
+					if p[k] > q.f.max[k]+m || p[k] < q.f.min[k]-m {
+						out = true
+					}
+				}
+				if !out {
+					continue
+				}
+				c.Count("screw.rod_probes_outside_the_box_on_a_short_axis", 1)
+				if sub.contains(p) {
+					c.Violation("toolbox3d.ScrewSolid/contained-point-outside-box-on-a-short-axis",
+						"Contains is true for a point that lies outside the box by more than 1e-4 of the box's extent on that axis",
+						q.witness(p, nil))
+					return
+				}
+			}
+		}
 	}
 	return sub.withHints3(hints)
 }
